@@ -314,6 +314,13 @@ pub fn main(tier: Tier, _replay: Option<String>) -> i32 {
                         if block_bytes(&back) != lb {
                             bad(&mut rep, "lite-block", "encode(decode)", format!("{} keys {}", bi.label, kn));
                         }
+                        // every entry of the lite block (kept transaction or placeholder) keeps its
+                        // hash across the wire: the receiver rebuilds the commitment from these
+                        let ha: Vec<_> = lite.transactions.iter().map(|t| (t.transaction_type, t.txs_replacements, t.hash_for_signature)).collect();
+                        let hb: Vec<_> = back.transactions.iter().map(|t| (t.transaction_type, t.txs_replacements, t.hash_for_signature)).collect();
+                        if ha != hb {
+                            bad(&mut rep, "lite-block", "entry-hashes-after-wire", format!("{} keys {}", bi.label, kn));
+                        }
                     }
                     Err(e) => bad(&mut rep, "lite-block", "decode(encode)", format!("{} keys {}: {:?}", bi.label, kn, e)),
                 }
